@@ -135,7 +135,12 @@ struct scmd {
     struct sop op;
 };
 
-struct uevent { uint64_t handle; };
+struct uevent { uint64_t handle; int act; };
+/* programs for user events: "action K <dispatcher-level op>" lines, run by the event "usched d prio act K" */
+#define MAXACT 8
+#define MAXACTOPS 4
+static struct sop actops[MAXACT][MAXACTOPS];
+static int nactops[MAXACT];
 
 static FILE *tf;
 static uint64_t seqno, evno;
@@ -469,10 +474,18 @@ static void snapshot(void)
 
 /* ------------------------------------------------------------ actions -- */
 
+static bool do_nonblocking(const struct sop *o, int pid, int opi, char hdr);
+
 static void user_event_action(void *subj, void *obj)
 {
     (void)obj;
-    tr("U %" PRIu64 " %" PRIu64 " %a %d\n", ++seqno, evno, cmb_time(), (int)(intptr_t)subj);
+    const int k = (int)(intptr_t)subj;
+    tr("U %" PRIu64 " %" PRIu64 " %a %d\n", ++seqno, evno, cmb_time(), k);
+    /* what the event does besides happening: it may end the wait (or the life) of its own waiters */
+    const int act = uevs[k].act;
+    if (act >= 0 && act < MAXACT) {
+        for (int j = 0; j < nactops[act]; j++) (void)do_nonblocking(&actops[act][j], -1, 1000 + k, 'X');
+    }
 }
 
 static void filler_action(void *subj, void *obj) { (void)subj; (void)obj; }
@@ -717,6 +730,7 @@ static bool do_nonblocking(const struct sop *o, const int pid, const int opi, co
         const uint64_t h = cmb_event_schedule(user_event_action, (void *)(intptr_t)nuevs, NULL,
                                               cmb_time() + o->d1, o->i1);
         uevs[nuevs].handle = h;
+        uevs[nuevs].act = (int)o->i2 - 1;
         CALLHDR(); tr(" %d %a %" PRIi64 " -> %" PRIu64 "\n", nuevs, cmb_time() + o->d1, o->i1, h);
         nuevs++;
         return true;
@@ -1052,7 +1066,11 @@ static int parse_op(char **tok, int nt, struct sop *o)
         o->i1 = cimx_i64(tok[2]); o->i2 = cimx_i64(tok[3]); break;
     case OP_RESUME: case OP_STOP: case OP_SETPRIO:
         NEED(2); o->tgt = parse_proc(tok[1]); if (o->tgt < 0) return -1; o->i1 = cimx_i64(tok[2]); break;
-    case OP_USCHED: NEED(2); o->d1 = cimx_dbl(tok[1]); o->i1 = cimx_i64(tok[2]); if (!(o->d1 >= 0.0)) return -1; break;
+    case OP_USCHED:
+        NEED(2); o->d1 = cimx_dbl(tok[1]); o->i1 = cimx_i64(tok[2]); if (!(o->d1 >= 0.0)) return -1;
+        o->i2 = 0;          /* usched d prio [act K]: i2 = K + 1 */
+        if (nt >= 5 && strcmp(tok[3], "act") == 0) o->i2 = cimx_i64(tok[4]) + 1;
+        break;
     case OP_URESCHED: NEED(2); o->i1 = cimx_i64(tok[1]); o->d1 = cimx_dbl(tok[2]); if (!(o->d1 >= 0.0)) return -1; break;
     case OP_REC_ON: case OP_REC_OFF: NEED(1); o->obj = find_obj(tok[1]); if (o->obj < 0) return -1; break;
     case OP_FILL_TO: NEED(2); o->i1 = cimx_i64(tok[1]); o->i2 = cimx_i64(tok[2]); break;
@@ -1160,6 +1178,14 @@ static int parse_case(char *text)
             }
             if (parse_op(tok + 1, nt - 1, &sp->ops[sp->nops]) != 0) return -1;
             sp->nops++;
+            continue;
+        }
+        if (strcmp(tok[0], "action") == 0) {
+            if (nt < 3) return -1;
+            const int64_t a = cimx_i64(tok[1]);
+            if (a < 0 || a >= MAXACT || nactops[a] == MAXACTOPS) return -1;
+            if (parse_op(tok + 2, nt - 2, &actops[a][nactops[a]]) != 0) return -1;
+            nactops[a]++;
             continue;
         }
         if (strcmp(tok[0], "at") == 0) {
